@@ -295,7 +295,7 @@ def read_ranges(draw, model, count):
 
 
 ARGFORMS = ["plain", "plain", "plain", "strided", "strided", "list", "int64", "swapped", "onedim", "defnext", "npidx", "cplxnd",
-            "cplxnd-other"]
+            "cplxnd-other", "reuse"]
 
 
 def draw_call_forms(draw, case):
